@@ -90,8 +90,14 @@ class Family:
     def build_refs(self):
         refs = {}
         for j in sorted(self.data):
-            refs[str(j)] = self.fingerprint(self.fit(self.make(), j))
+            refs[str(j)] = self.fresh(j)
         return refs, {}
+
+    def fresh(self, j, **over):
+        """fingerprint of a new estimator fitted once on D_j (fit's return value is not used)"""
+        e = self.make(**over)
+        self.fit(e, j)
+        return self.fingerprint(e)
 
 
 def _flat(*parts):
@@ -123,7 +129,7 @@ class TOFam(Family):
         if c["variant"] == "dp_lr":
             kw = dict(estimator=LogisticRegression(C=1.0), constraints=c.get("constraints", "demographic_parity"),
                       objective="accuracy_score", grid_size=c.get("grid_size", 20), flip=False, prefit=False,
-                      predict_method="predict_proba")
+                      predict_method="auto")
         else:
             kw = dict(estimator=PassThrough(), constraints="equalized_odds", objective="accuracy_score",
                       grid_size=c.get("grid_size", 15), flip=True, prefit=True, predict_method="predict")
@@ -197,24 +203,25 @@ class EGFam(_RedFam):
         refs, info = {}, {}
         if self.cfg["nu"] == "given":
             for j in (1, 2):
-                refs[f"g|{j}"] = self.fingerprint(self.fit(self.make(), j))
+                refs[f"g|{j}"] = self.fresh(j)
             info["nus"] = {"given": self.NU_GIVEN}
             return refs, info
         nus = {}
         for j in (1, 2):
-            e = self.fit(self.make(), j)        # fresh, nu=None: the property's reference
+            e = self.make()                     # fresh, nu=None: the property's reference
+            self.fit(e, j)
             refs[f"{j}|{j}"] = self.fingerprint(e)
             nus[str(j)] = float(e.get_params(deep=False)["nu"]) if e.get_params(deep=False)["nu"] is not None else None
         for k in (1, 2):
             for j in (1, 2):
                 if k != j and nus[str(k)] is not None:
                     # what the model says a refit after a first fit on D_k is: the stale nu of D_k
-                    refs[f"{k}|{j}"] = self.fingerprint(self.fit(self.make(nu=nus[str(k)]), j))
+                    refs[f"{k}|{j}"] = self.fresh(j, nu=nus[str(k)])
         if self.case.get("check_nu_equiv"):
             # model clause "fit with nu=None behaves as fit with nu=<the value it computes>"
             info["nu_equiv"] = all(
                 nus[str(j)] is not None and
-                _match(self.fingerprint(self.fit(self.make(nu=nus[str(j)]), j)), refs[f"{j}|{j}"])
+                _match(self.fresh(j, nu=nus[str(j)]), refs[f"{j}|{j}"])
                 for j in (1, 2))
         info["nus"] = nus
         return refs, info
@@ -453,7 +460,12 @@ def run_history(F, hist, refs, info):
 
 def run_case(case):
     F = FAMILIES[case["fam"]](case)
-    refs, info = F.build_refs()
+    try:
+        refs, info = F.build_refs()
+    except Exception as e:  # noqa  -- a FRESH estimator cannot be fitted / does not predict
+        import traceback
+        return {"est": F.name, "ref_error": _exc_name(e), "ref_msg": str(e)[:200],
+                "ref_tb": traceback.format_exc()[-800:], "refs": [], "distinct": False, "info": {}, "hists": []}
     ids = list(refs)
     distinct = all(not _match(refs[a], refs[b]) for i, a in enumerate(ids) for b in ids[i + 1:]
                    if a.split("|")[-1] != b.split("|")[-1] or "|" not in a)
